@@ -198,6 +198,17 @@ Proof.
   intros kv Hkv. apply in_map_iff in Hkv as ([k s] & <- & _). cbn. apply json_wf_to_json.
 Qed.
 
+(* everything that builds a serde_json::Value on the modelled paths keeps the invariant *)
+Theorem number_invariant_established :
+  (forall s, json_wf (to_json s) = true) /\
+  (forall outs, json_wf (write_outputs outs) = true) /\
+  (forall d, json_wf d = true -> json_wf (sj_build d) = true) /\
+  (forall d, json_wf d = true -> json_wf (jcanon d) = true).
+Proof.
+  split; [exact json_wf_to_json|]. split; [exact json_wf_write_outputs|].
+  split; [exact json_wf_sj_build|exact json_wf_jcanon].
+Qed.
+
 (* ------------------------------------------------------------------ the parser model *)
 (* digits read by the scanner are digits *)
 Lemma span_digits_ok : forall s l r, span_digits s = (l, r) -> digits_ok l = true.
